@@ -2,9 +2,11 @@
 // a `running` slot: the oneshot whose Shared receiver every Addr / WeakAddr / Context holds.
 //   resolved: the inner oneshot has a result (notifier fired, or was dropped un-fired) — this is `terminated`
 //   observed: some Shared handle's poll has driven the inner receiver to completion (state COMPLETE)
-pub struct Slot { pub resolved: bool, pub observed: bool }
+//   ok:       (meaningful once resolved) the notifier fired, i.e. termination was graceful; false: the notifier was dropped un-fired
+pub struct Slot { pub resolved: bool, pub observed: bool, pub ok: bool }
 pub struct AnyVal { pub tid: int, pub slot: int, pub cid: int }    // abstract content of a type-erased box holding an Addr
 pub enum TaskSt { Held, Detached }
+pub struct Canceled;                     // futures oneshot: the sender was dropped without sending
 pub enum Kind { Ignore, Same, Fresh }     // what a restart request does (C07): ignored / same value restarted / fresh Default value
 // what an actor task was spawned with (C07 strategy selection, C11 config pass-through, C12 capacity pass-through, C13 stream attachment)
 pub struct LoopInfo { pub slot: int, pub kind: Kind, pub stream: bool, pub timeout: Option<u64>, pub fail_on_timeout: bool, pub cap: Option<usize>, pub gid: int }
@@ -18,6 +20,9 @@ pub struct World {
     pub tasks: Map<int, TaskSt>,       // runtime tasks spawned so far: handle still held / detached
     pub task_info: Map<int, LoopInfo>, // what each spawned actor task runs
     pub cells: Map<int, bool>,         // take-once cells holding a runtime join handle: true = still there, false = taken
+    pub closed: Set<int>,              // mailbox queues whose receiver is gone (shared: a closed queue stays closed)
+    pub last_pid: int,                 // ghost registers: the payload / oneshot slot most recently created by this task
+    pub last_slot: int,
 }
 pub open spec fn emits(pre: &World, post: &World, e: Ev) -> bool {
     *post == World { lc: step(pre.lc, e), trace: pre.trace.push(e), ..*pre }
@@ -27,13 +32,13 @@ pub open spec fn same_world(pre: &World, post: &World) -> bool { *post == *pre }
 // unchanged; what is shared moved on by steps of other tasks: `shared_moved` is reflexive and transitive, and keeps the stable facts:
 // a resolved running slot stays resolved, tasks and slots are never forgotten, a task's spawn info and held/detached state are only
 // changed by its handle's owner, the registry is ours while we hold the lock.
-pub struct SharedSt { pub slots: Map<int, Slot>, pub registry: Map<int, AnyVal>, pub reg_acq: Map<int, AnyVal>, pub locked: bool, pub tasks: Map<int, TaskSt>, pub task_info: Map<int, LoopInfo> }
-pub open spec fn sh(w: &World) -> SharedSt { SharedSt { slots: w.slots, registry: w.registry, reg_acq: w.reg_acq, locked: w.locked, tasks: w.tasks, task_info: w.task_info } }
+pub struct SharedSt { pub closed: Set<int>, pub slots: Map<int, Slot>, pub registry: Map<int, AnyVal>, pub reg_acq: Map<int, AnyVal>, pub locked: bool, pub tasks: Map<int, TaskSt>, pub task_info: Map<int, LoopInfo> }
+pub open spec fn sh(w: &World) -> SharedSt { SharedSt { closed: w.closed, slots: w.slots, registry: w.registry, reg_acq: w.reg_acq, locked: w.locked, tasks: w.tasks, task_info: w.task_info } }
 pub uninterp spec fn shared_moved(a: SharedSt, b: SharedSt) -> bool;
 pub broadcast axiom fn shared_moved_refl(a: SharedSt) ensures #[trigger] shared_moved(a, a);
 pub broadcast axiom fn shared_moved_trans(a: SharedSt, b: SharedSt, c: SharedSt) requires #[trigger] shared_moved(a, b), #[trigger] shared_moved(b, c) ensures shared_moved(a, c);
 pub broadcast axiom fn shared_moved_facts(a: SharedSt, b: SharedSt) requires #[trigger] shared_moved(a, b)
-    ensures b.locked == a.locked, a.slots.dom().subset_of(b.slots.dom()), a.tasks.dom().subset_of(b.tasks.dom()),
+    ensures b.locked == a.locked, a.closed.subset_of(b.closed), a.slots.dom().subset_of(b.slots.dom()), a.tasks.dom().subset_of(b.tasks.dom()),
         forall|s: int| #![auto] a.slots.dom().contains(s) && a.slots[s].resolved ==> b.slots[s].resolved,
         forall|t: int| #![auto] a.tasks.dom().contains(t) ==> b.tasks[t] == a.tasks[t] && b.task_info[t] == a.task_info[t],
         a.locked ==> b.registry == a.registry && b.reg_acq == a.reg_acq;
